@@ -19,6 +19,7 @@ Named(key, v) == [named |-> TRUE, key |-> <<Txt(key)>>, val |-> v]
 If(c, y, n) == [k |-> "if", c |-> c, y |-> y, n |-> n]
 IfEq(a, b, y, n) == [k |-> "eq", a |-> a, b |-> b, y |-> y, n |-> n]
 Switch(v, cases, hasD, d) == [k |-> "sw", v |-> v, cases |-> cases, hasDflt |-> hasD, dflt |-> d]
+ParC(n, d) == [k |-> "pc", name |-> n, hasDef |-> TRUE, def |-> d]
 Link(args) == [k |-> "l", args |-> args]
 Ext(c) == [k |-> "x", c |-> c]
 Seg(w, c) == [w |-> w, c |-> c]
@@ -48,12 +49,12 @@ T1BodiesQ == { Plain(BodyShow), Plain(BodyStar), Plain(BodyDefPar),
 
 \* T2: templates calling T1, forwarding / padding their own parameters
 T2Bodies ==
-  { Plain(<<Link(<<<<Txt(<<"a">>)>>, <<Par(<<"1">>), Call("T1", <<Pos(<<Par(<<"x">>)>>)>>)>>>>), Ext(<<Par(<<"1">>)>>)>>), Plain(<<Txt(<<"<">>), Call("T1", <<Pos(<<Par(<<"1">>)>>), Named(<<"x">>, <<Par(<<"x">>)>>)>>), Txt(<<">">>)>>),
+  { Plain(<<ParC(<<Txt(<<"SP">>), ParD(<<"k">>, <<Txt(<<"1">>)>>)>>, <<Txt(<<"dk">>)>>), ParC(<<Call("T1", <<>>)>>, <<Txt(<<"dc">>)>>)>>), Plain(<<Link(<<<<Txt(<<"a">>)>>, <<Par(<<"1">>), Call("T1", <<Pos(<<Par(<<"x">>)>>)>>)>>>>), Ext(<<Par(<<"1">>)>>)>>), Plain(<<Txt(<<"<">>), Call("T1", <<Pos(<<Par(<<"1">>)>>), Named(<<"x">>, <<Par(<<"x">>)>>)>>), Txt(<<">">>)>>),
     Plain(<<Call("T1", <<Named(<<"x">>, <<Txt(<<"SP">>), Par(<<"1">>), Txt(<<"SP">>)>>)>>)>>),
     Plain(<<Call("T1", <<Pos(<<Txt(<<"SP">>), ParD(<<"q">>, <<Txt(<<"dq">>)>>), Txt(<<"NL">>)>>)>>)>>),
     Plain(<<If(<<Par(<<"1">>)>>, <<Txt(<<"SP", "y", "SP">>)>>, <<Call("T1", <<Pos(<<Txt(<<"n">>)>>)>>)>>)>>),
     Plain(<<Call("T1", <<Named(<<"1">>, <<Par(<<"x">>)>>), Pos(<<Par(<<"1">>)>>)>>)>>) }
-T2BodiesQ == { Plain(<<Link(<<<<Txt(<<"a">>)>>, <<Par(<<"1">>), Call("T1", <<Pos(<<Par(<<"x">>)>>)>>)>>>>), Ext(<<Par(<<"1">>)>>)>>), Plain(<<Txt(<<"<">>), Call("T1", <<Pos(<<Par(<<"1">>)>>), Named(<<"x">>, <<Par(<<"x">>)>>)>>), Txt(<<">">>)>>),
+T2BodiesQ == { Plain(<<ParC(<<Txt(<<"SP">>), ParD(<<"k">>, <<Txt(<<"1">>)>>)>>, <<Txt(<<"dk">>)>>), ParC(<<Call("T1", <<>>)>>, <<Txt(<<"dc">>)>>)>>), Plain(<<Link(<<<<Txt(<<"a">>)>>, <<Par(<<"1">>), Call("T1", <<Pos(<<Par(<<"x">>)>>)>>)>>>>), Ext(<<Par(<<"1">>)>>)>>), Plain(<<Txt(<<"<">>), Call("T1", <<Pos(<<Par(<<"1">>)>>), Named(<<"x">>, <<Par(<<"x">>)>>)>>), Txt(<<">">>)>>),
                Plain(<<Call("T1", <<Named(<<"x">>, <<Txt(<<"SP">>), Par(<<"1">>), Txt(<<"SP">>)>>)>>)>>),
                Plain(<<If(<<Par(<<"1">>)>>, <<Txt(<<"SP", "y", "SP">>)>>, <<Call("T1", <<Pos(<<Txt(<<"n">>)>>)>>)>>)>>) }
 
